@@ -156,11 +156,11 @@ Definition both (j : json) :=
    match j2p_machine false exS M j with OOk b => decode_top exS M b | _ => None end).
 Local Open Scope string_scope.
 
-(* non-vacuity of the refinement theorems: scalar, zig-zag, nested, packed, [packed=false], repeated-message, map (scalar and
+(* non-vacuity of the refinement theorems: scalar, zig-zag, nested, packed, repeated-message, map (scalar and
    message values), enum, bytes, null and unknown members in one document *)
 Definition exDoc := obj [("a", num "150"); ("unknown", JArr [JNull; obj [("q", JNull)]]); ("x", JNull);
                          ("inF", obj [("s", JStr (asc "hi")); ("a", num "-1"); ("inF", obj [])]); ("si", num "-3");
-                         ("l", JArr [num "1"; num "300"]); ("lu", JArr [num "1"; num "300"]);
+                         ("l", JArr [num "1"; num "300"]);
                          ("lm", JArr [obj [("a", num "1")]; obj []]);
                          ("mu", obj [("7", num "1"); ("3000000000", num "-2")]);
                          ("mm", obj [("k", obj [("a", num "1")]); ("", obj [])]);
@@ -168,7 +168,7 @@ Definition exDoc := obj [("a", num "150"); ("unknown", JArr [JNull; obj [("q", J
 Example C09_refinement_hypotheses_satisfiable :
   frames_needed exS M exDoc = 4%nat /\
   match denote_top true false exS M exDoc, j2p_machine false exS M exDoc with
-  | ROk m, OOk b => bytes_eqb b (encode_msg m) && (Nat.eqb (List.length m) 11) &&
+  | ROk m, OOk b => bytes_eqb b (encode_msg m) && (Nat.eqb (List.length m) 10) &&
                     match decode_top exS M b with Some m' => pval_eqv (VMsg m) (VMsg m') | None => false end
   | _, _ => false
   end = true.
@@ -191,7 +191,7 @@ Proof. vm_compute. split; reflexivity. Qed.
 Example C09_fixed_902_empty :
   both (obj [("inF", obj []); ("x", num "1")])
   = (ROk [(3, VMsg []); (11, VScalar 5 1)], ROk [(3, VMsg []); (11, VScalar 5 1)], OOk [26; 0; 88; 1], Some [(3, VMsg []); (11, VScalar 5 1)]) /\
-  both (obj [("lu", JArr []); ("mu", obj []); ("x", num "1")])
+  both (obj [("lm", JArr []); ("mu", obj []); ("x", num "1")])
   = (ROk [(11, VScalar 5 1)], ROk [(11, VScalar 5 1)], OOk [88; 1], Some [(11, VScalar 5 1)]).
 Proof. vm_compute. split; reflexivity. Qed.
 Example C09_fixed_903_mapkey :
@@ -238,6 +238,10 @@ Example C09_quirk_enum_by_name_and_base64_variants :    (* stricter: enum names,
 Proof. vm_compute. repeat split; reflexivity. Qed.
 Example C09_quirk_map_key_spelling :                    (* laxer: strconv accepts leading zeros *)
   both (obj [("mu", obj [("007", num "1")])]) = (RUndef, RUndef, OOk [50; 4; 8; 7; 16; 1], Some [(6, VMap [(KInt 13 7, VScalar 5 1)])]).
+Proof. vm_compute. reflexivity. Qed.
+Example C09_quirk_declared_unpacked :                   (* outside the modelled schemas: a numeric list declared [packed=false] is written one record per element *)
+  both (obj [("lu", JArr [num "1"; num "300"])])
+  = (RUndef, RUndef, OOk [104; 1; 104; 172; 2], Some [(13, VList false [VScalar 5 1; VScalar 5 300])]).
 Proof. vm_compute. reflexivity. Qed.
 (* the residue of the strict domain: same message, other bytes / other rounding (drift 1 / 21 in the checker) *)
 Example C09_residue_empty_packed_and_float_rounding :
